@@ -1,0 +1,9 @@
+//go:build !verif
+
+// Package verifhook provides named yield points used by the external
+// verification harness. Without the "verif" build tag Point is an empty,
+// inlinable function.
+package verifhook
+
+// Point is a no-op unless built with the "verif" tag.
+func Point(string) {}
